@@ -372,3 +372,89 @@ def as_expression(fn_node):
     e = Fold().visit(e)
     ast.fix_missing_locations(e)
     return e
+
+
+def constant_table_values(repo, mod, it):
+    """The rows of a module-level constant table `it` ranges over: a list
+    of ast nodes (constants or tuples of constants), or None."""
+    from sa import model as _m
+    node = it
+    for _ in range(4):
+        if isinstance(node, (ast.Name, ast.Attribute)):
+            d = repo.resolve(mod, node)
+            tgt = repo.lookup(d) if d else None
+            if isinstance(tgt, tuple) and tgt[0] == 'const':
+                mod, node = tgt[1], tgt[2]
+                continue
+            return None
+        break
+    if not isinstance(node, (ast.Tuple, ast.List)):
+        return None
+    rows = []
+    for r in node.elts:
+        if isinstance(r, ast.Constant) or (isinstance(
+                r, (ast.Tuple, ast.List)) and all(
+                isinstance(x, ast.Constant) for x in r.elts)):
+            rows.append(r)
+        else:
+            return None
+    return rows
+
+
+def unroll_constant_tables(repo, mod, expr):
+    """sum(<elt> for a, b in TABLE) over a module-level table of constants
+    -> elt[row1] + elt[row2] + ...; getattr(x, 'name') -> x.name."""
+    import copy
+
+    def bind(target, row):
+        if isinstance(target, ast.Name):
+            return {target.id: row}
+        if isinstance(target, (ast.Tuple, ast.List)) and isinstance(
+                row, (ast.Tuple, ast.List)) and len(target.elts) == len(
+                row.elts) and all(isinstance(t, ast.Name)
+                                  for t in target.elts):
+            return {t.id: v for t, v in zip(target.elts, row.elts)}
+        return None
+
+    class Sub(ast.NodeTransformer):
+        def __init__(self, env):
+            self.env = env
+
+        def visit_Name(self, n):
+            if n.id in self.env and isinstance(n.ctx, ast.Load):
+                return copy.deepcopy(self.env[n.id])
+            return n
+
+    class U(ast.NodeTransformer):
+        def visit_Call(self, n):
+            self.generic_visit(n)
+            if isinstance(n.func, ast.Name) and n.func.id == 'sum' and \
+                    len(n.args) == 1 and isinstance(
+                        n.args[0], (ast.GeneratorExp, ast.ListComp)) and \
+                    len(n.args[0].generators) == 1 and \
+                    not n.args[0].generators[0].ifs:
+                g = n.args[0].generators[0]
+                rows = constant_table_values(repo, mod, g.iter)
+                if rows:
+                    terms = []
+                    for r in rows:
+                        env = bind(g.target, r)
+                        if env is None:
+                            return n
+                        terms.append(U().visit(Sub(env).visit(
+                            copy.deepcopy(n.args[0].elt))))
+                    out = terms[0]
+                    for t in terms[1:]:
+                        out = ast.BinOp(left=out, op=ast.Add(), right=t)
+                    return ast.fix_missing_locations(
+                        ast.copy_location(out, n))
+            if isinstance(n.func, ast.Name) and n.func.id == 'getattr' and \
+                    len(n.args) == 2 and isinstance(
+                        n.args[1], ast.Constant) and isinstance(
+                        n.args[1].value, str) and \
+                    n.args[1].value.isidentifier():
+                return ast.copy_location(ast.Attribute(
+                    value=n.args[0], attr=n.args[1].value,
+                    ctx=ast.Load()), n)
+            return n
+    return U().visit(copy.deepcopy(expr))
